@@ -45,8 +45,8 @@ def step (s : St) (toks : List String) : IO (St × Bool) := do
     match k.toNat? with
     | some k =>
       match newTable (k != 1) (k != 2) with
-      | (none, _) => IO.println "null"; return (s, false)
-      | (some _, _) => IO.println "ok"; return (s, false)
+      | (none, held) => IO.println s!"null held={held} after-free={held}"; return (s, false)
+      | (some _, held) => IO.println s!"ok held={held} after-free=0"; return (s, false)
     | none => IO.println "bad-op"; return (s, false)
   | ["ins2", k, v] =>
     match u k, u v with
